@@ -68,13 +68,17 @@ func (b *BlueprintGenericSparseR1C[E]) Solve(s Solver[E], inst Instruction) erro
 		den := s.GetValue(c.QM, c.XB)
 		den = s.Add(den, u1)
 		den, ok = s.Inverse(den)
-		if !ok {
-			return errDivideByZero
-		}
 		v1 := s.GetValue(c.QR, c.XB)
 		v2 := s.GetValue(c.QO, c.XC)
 		num := s.Add(v1, v2)
 		num = s.Add(num, s.GetCoeff(c.QC))
+		if !ok {
+			// the unsolved wire has a zero multiplier: the constraint holds for every value of
+			// the wire iff the remaining terms sum to zero (e.g. DivUnchecked(0, 0)).
+			if !num.IsZero() {
+				return errDivideByZero
+			}
+		}
 		num = s.Mul(num, den)
 		num = s.Neg(num)
 		s.SetValue(c.XA, num)
@@ -83,15 +87,17 @@ func (b *BlueprintGenericSparseR1C[E]) Solve(s Solver[E], inst Instruction) erro
 		den := s.GetValue(c.QM, c.XA)
 		den = s.Add(den, u2)
 		den, ok = s.Inverse(den)
-		if !ok {
-			return errDivideByZero
-		}
 
 		v1 := s.GetValue(c.QL, c.XA)
 		v2 := s.GetValue(c.QO, c.XC)
 
 		num := s.Add(v1, v2)
 		num = s.Add(num, s.GetCoeff(c.QC))
+		if !ok {
+			if !num.IsZero() {
+				return errDivideByZero
+			}
+		}
 		num = s.Mul(num, den)
 		num = s.Neg(num)
 		s.SetValue(c.XB, num)
@@ -112,7 +118,9 @@ func (b *BlueprintGenericSparseR1C[E]) Solve(s Solver[E], inst Instruction) erro
 		den := s.GetCoeff(c.QO)
 		den, ok = s.Inverse(den)
 		if !ok {
-			return errDivideByZero
+			if !o.IsZero() {
+				return errDivideByZero
+			}
 		}
 		o = s.Mul(o, den)
 		o = s.Neg(o)
